@@ -98,6 +98,8 @@ impl MonotonicTimestampGenerator {
     // then this method will increment the last timestamp.
     fn compute_next(&self, last: i64) -> i64 {
         let current = SystemTime::now().duration_since(UNIX_EPOCH);
+        #[cfg(scylla_verif)]
+        let current = crate::verif_hooks::clock::override_or(current);
         if let Ok(cur_time) = current {
             // We have generated a valid timestamp
             let u_cur = cur_time.as_micros() as i64;
